@@ -316,11 +316,11 @@ func gitIndex(w *gcWorld) ([]string, error) {
 	return strings.Split(o, "\n"), nil
 }
 
-// specIndexLines renders the abstract index the way `git ls-files -s` prints it (without the mode column).
+// specIndexLines renders the abstract index the way `git ls-files -s` prints it (mode, hash, stage, name: the worktree entries are materialised in the kind the rendering gives each blob).
 func specIndexLines(w *gcWorld, ix gcIdx) []string {
 	var out []string
 	for _, e := range w.indexOf(ix).Entries {
-		out = append(out, fmt.Sprintf("%s %d\t%s", e.Hash, e.Stage, e.Name))
+		out = append(out, fmt.Sprintf("%06o %s %d\t%s", uint32(e.Mode), e.Hash, e.Stage, e.Name))
 	}
 	return out
 }
@@ -366,12 +366,6 @@ func (g *gcRun) gitWitness(base *gcWorld, live []oid) error {
 	got, err := gitIndex(base)
 	if err != nil {
 		return err
-	}
-	for i, l := range got {
-		// entry kinds (regular / executable / symlink) are the porcelain's business, not the model's: compare hash, stage, name
-		if j := strings.IndexByte(l, ' '); j > 0 {
-			got[i] = l[j+1:]
-		}
 	}
 	if want := specIndexLines(base, g.h.Final.Idx); strings.Join(got, "|") != strings.Join(want, "|") {
 		return fmt.Errorf("git ls-files -s shows %q, the abstract index is %q", got, want)
